@@ -306,6 +306,9 @@ class H5Group:
     def copy(self, source, dest, name=None, cls=None, shallow=False,
              keep_id=True):
         grp = self.group
+        # asked before anything is copied: the truth value of an argument of
+        # the wrong kind (an array) is an error
+        keep_id = bool(keep_id)
         if isinstance(name, str):
             # the name attribute of the copy is written after the copy was
             # made: plain text, whatever subclass of str was given, and
